@@ -334,7 +334,7 @@ def inline_aliases(fn, interesting):
                         if len(n.targets) == 1 and tt is t:
                             defs[t.id] = n.value
                 # `a, b = X` (X an attribute / subscript path or a name): a is X[0], b is X[1]
-                if len(n.targets) == 1 and isinstance(tt, (ast.Tuple, ast.List)) and isinstance(n.value, (ast.Attribute, ast.Subscript, ast.Name)):
+                if len(n.targets) == 1 and isinstance(tt, (ast.Tuple, ast.List)) and isinstance(n.value, (ast.Attribute, ast.Subscript, ast.Name, ast.Call)):
                     for i, t in enumerate(tt.elts):
                         if isinstance(t, ast.Name):
                             defs[t.id] = ast.Subscript(value=n.value, slice=ast.Constant(value=i), ctx=ast.Load())
@@ -411,13 +411,23 @@ def _enclosing_fn(node):
 
 
 def _parse_pattern(src):
+    """A reference fragment in the same normal form as the code (it is wrapped into a function so that the
+    function-level normal forms - adjacent temporaries - apply to multi-statement fragments too)."""
     from .core import _normalise
 
-    mod = ast.parse(src)
-    _normalise(mod)  # patterns are read in the same normal form as the code
-    if len(mod.body) == 1 and isinstance(mod.body[0], ast.Expr):
-        return mod.body[0].value
-    return mod.body[0] if len(mod.body) == 1 else mod.body
+    wrapped = "def __pattern__():\n" + "\n".join("    " + ln for ln in src.split("\n"))
+    try:
+        mod = ast.parse(wrapped)
+    except SyntaxError:
+        mod = ast.parse(src)
+        _normalise(mod)
+        body = mod.body
+    else:
+        _normalise(mod)
+        body = mod.body[0].body
+    if len(body) == 1 and isinstance(body[0], ast.Expr):
+        return body[0].value
+    return body[0] if len(body) == 1 else body
 
 
 def _alpha(a, b, locs, fwd, bwd):
@@ -468,9 +478,24 @@ def alpha_eq(node, pattern, fn=None, binds=None):
 
 
 def find_frag(node, pattern, fn=None, binds=None):
-    """First sub-tree of `node` that is alpha-equal to `pattern` (None if there is none)."""
+    """First sub-tree of `node` that is alpha-equal to `pattern` (None if there is none).  A pattern of several
+    statements matches consecutive statements of one block (the first of them is returned)."""
     pat = _parse_pattern(pattern) if isinstance(pattern, str) else pattern
     roots = node if isinstance(node, list) else [node]
+    if isinstance(pat, list):
+        for r in roots:
+            for holder in ast.walk(r):
+                for fld in ("body", "orelse", "finalbody"):
+                    blk = getattr(holder, fld, None)
+                    if not (isinstance(blk, list) and blk and isinstance(blk[0], ast.stmt)):
+                        continue
+                    for i in range(len(blk) - len(pat) + 1):
+                        trial = dict(binds) if binds is not None else {}
+                        if all(type(a) is type(b) and alpha_eq(a, b, fn, trial) for a, b in zip(blk[i : i + len(pat)], pat)):
+                            if binds is not None:
+                                binds.update(trial)
+                            return blk[i]
+        return None
     for r in roots:
         for sub in ast.walk(r):
             if type(sub) is type(pat) and alpha_eq(sub, pat, fn, binds):
